@@ -1453,6 +1453,11 @@ func (m *metadataAPI) RemoveStream(stream *stream, recovered bool, epoch uint64)
 	// recreate will un-tombstone the stream.
 	if recovered {
 		stream.Tombstone()
+		// The consumer groups must forget the stream now, with this
+		// operation's epoch, exactly as they do when the delete is applied
+		// live; otherwise replayed group operations that follow are applied to
+		// groups still subscribed to it.
+		m.notifyStreamDeleted(stream.GetName(), epoch)
 	} else {
 		if err := m.deleteStream(stream, epoch); err != nil {
 			return err
@@ -1527,10 +1532,16 @@ func (m *metadataAPI) removeStream(stream *stream, epoch uint64) {
 			delete(m.partitionFailovers, partition)
 		}
 	}
+	m.notifyStreamDeleted(stream.GetName(), epoch)
+}
+
+// notifyStreamDeleted triggers a rebalance of consumer group assignments for a
+// stream that no longer exists.
+func (m *metadataAPI) notifyStreamDeleted(name string, epoch uint64) {
 	m.startGoroutine(func() {
 		m.consumerGroupsMu.RLock()
 		for _, group := range m.consumerGroups {
-			group.StreamDeleted(stream.GetName(), epoch)
+			group.StreamDeleted(name, epoch)
 		}
 		m.consumerGroupsMu.RUnlock()
 	})
